@@ -306,7 +306,7 @@ package jrpc2
 //@   ensures[C10:no-second-close] old(s.ch) == nil ==> forall(c Iface, chCloses(c) == old(chCloses(c)))
 //@   ensures Server_mu_inv(s)
 //@   at call.Close#1 assert[C10:close-under-lock] held(s.mu)
-//@   at call.Add#1 assert[C03:requeued-one-by-one-in-order] len(arg1) == 1 && arg1[0] == keep[rangeindex + 1] && retained(arg1[0])
+//@   at call.Add[github.com/creachadair/jrpc2.jmessages]#1 assert[C03:requeued-one-by-one-in-order] len(arg1) == 1 && arg1[0] == keep[rangeindex + 1] && retained(arg1[0])
 //@   loop 1 invariant qlen(fieldaddr(s, inq)) >= 0 && forall(i int, 0 <= i && i < len(keep) ==> keep[i] != nil && retained(keep[i]))
 //@   loop 2 invariant forall(k string, in(s.call, k) ==> slotOpen(lookup(s.call, k)))
 //@   loop 3 invariant forall(k string, in(s.used, k) ==> lookup(s.used, k) != nil && k != "") && forall(k string, visited(loop3, k) ==> !in(s.used, k))
@@ -327,7 +327,7 @@ package jrpc2
 
 //@ func (*Server).Stop
 //@   requires wfServer(s) && !held(s.mu)
-//@   modifies monitor(Server, s), fired, chCloses
+//@   modifies monitor(Server, s), fired, chCloses, retained
 //@   ensures !held(s.mu)
 
 // read: the one receiver. Every iteration takes the lock once; a Recv failure
